@@ -1497,9 +1497,13 @@ class Container:
         new_concentration, numerator, denominator = Unit.parse_concentration(concentration)
         top = measure(solute, self.contents[solute], numerator)
         bottom = sum(measure(substance, value, denominator) for substance, value in self.contents.items())
-        current_concentration = top / bottom
+        # (nothing in the denominator - a dry solid under default_solid_density: inf, per litre - is the pure solute)
+        current_concentration = top / bottom if bottom else float('inf')
 
-        if abs(new_concentration - current_concentration) <= 1e-6 * current_concentration:
+        # the current concentration itself (as reported: rounded to the internal precision; as computed: to the last
+        # digits of a float and of the stored amounts) needs no solvent
+        if bottom and abs(new_concentration - current_concentration) <= (10 ** -config.internal_precision +
+                                                                          1e-9 * current_concentration):
             return deepcopy(self)
 
         if new_concentration > current_concentration:
